@@ -10,8 +10,18 @@
   (rules from ``acl._acl``, counters from ``describe_state()``).
 
 Trace values: positions are real 0-based positions, addresses/masks the model's naturals (the
-inverse of the embedding; -2 = not in its image), ports real port numbers, protocols real names;
--1 / "any" = unspecified.
+inverse of the embedding; -2 = not in its image), ports real NON-ZERO port numbers, protocols real
+names (tcp/udp/icmp); -1 / "any" = unspecified.
+
+The port sentinel.  In this code base 0 is ``PORT_LOOKUP["NONE"]``, the documented "no port" value:
+``ACLRule.permit_frame_check`` treats a falsy port as not specified and ``ACLRule.describe_state``
+reports it as ``None``.  A rule written with port NONE(0) therefore IS a rule with an unspecified
+port: model ports are only ever embedded as non-zero real ports, and the read-back projects a real
+rule port of ``None`` or ``0`` to "unspecified" (-1).  Stimuli of the *sentinel* class spell some
+unspecified ports as 0 / "NONE" (``none_ports`` of an add / load entry) through all three doors; the
+model rule keeps the port unspecified and TLC must accept the trace.  (Protocols have no such
+sentinel: ``PROTOCOL_LOOKUP["NONE"]`` = "none" is a truthy string that the code compares like any
+other protocol; the harness never uses it.)
 """
 from __future__ import annotations
 
@@ -109,8 +119,19 @@ def port_names() -> Dict[int, str]:
     return out
 
 
-def api_kwargs(r: Dict[str, Any], emb: Embedding, style: random.Random) -> Dict[str, Any]:
-    """Keyword arguments of AccessControlList.add_rule for a model rule."""
+def _check_rule(r: Dict[str, Any], none_ports) -> None:
+    """Harness sanity: model ports are embedded only as non-zero real ports; NONE spells an unspecified port."""
+    for k in ("sport", "dport"):
+        if r[k] == 0 or (k in none_ports and r[k] != ANYN):
+            raise RuntimeError(f"harness bug: rule {r} / none_ports {none_ports}")
+    if r["proto"] not in ("any", "tcp", "udp", "icmp"):
+        raise RuntimeError(f"harness bug: protocol {r['proto']}")
+
+
+def api_kwargs(r: Dict[str, Any], emb: Embedding, style: random.Random, none_ports=()) -> Dict[str, Any]:
+    """Keyword arguments of AccessControlList.add_rule for a model rule (ports in `none_ports` - which
+    the rule leaves unspecified - are spelt 0 / "NONE" instead of None)."""
+    _check_rule(r, none_ports)
     from primaite.simulator.network.hardware.nodes.network.router import ACLAction
 
     _, prl = _lookups()
@@ -126,11 +147,15 @@ def api_kwargs(r: Dict[str, Any], emb: Embedding, style: random.Random) -> Dict[
     kw["dst_wildcard_mask"] = None if r["dmask"] == ANYN else addr(emb.wc(r["dmask"]))
     kw["src_port"] = None if r["sport"] == ANYN else r["sport"]
     kw["dst_port"] = None if r["dport"] == ANYN else r["dport"]
+    for k, f in (("sport", "src_port"), ("dport", "dst_port")):
+        if k in none_ports:
+            kw[f] = 0 if style.random() < 0.5 else "NONE"
     return kw
 
 
-def action_options(r: Dict[str, Any], emb: Embedding, style: random.Random) -> Dict[str, Any]:
+def action_options(r: Dict[str, Any], emb: Embedding, style: random.Random, none_ports=()) -> Dict[str, Any]:
     """Options of the router-/firewall-acl-add-rule agent actions for a model rule ('ALL'/'NONE' sentinels)."""
+    _check_rule(r, none_ports)
     names = port_names()
 
     def port(p):
@@ -145,13 +170,14 @@ def action_options(r: Dict[str, Any], emb: Embedding, style: random.Random) -> D
         "src_wildcard": "NONE" if r["smask"] == ANYN else str(emb.wc(r["smask"])),
         "dst_ip": "ALL" if r["dst"] == ANYN else str(emb.ip(r["dst"])),
         "dst_wildcard": "NONE" if r["dmask"] == ANYN else str(emb.wc(r["dmask"])),
-        "src_port": port(r["sport"]),
-        "dst_port": port(r["dport"]),
+        "src_port": (0 if style.random() < 0.5 else "NONE") if "sport" in none_ports else port(r["sport"]),
+        "dst_port": (0 if style.random() < 0.5 else "NONE") if "dport" in none_ports else port(r["dport"]),
     }
 
 
-def config_entry(r: Dict[str, Any], emb: Embedding) -> Dict[str, Any]:
+def config_entry(r: Dict[str, Any], emb: Embedding, none_ports=()) -> Dict[str, Any]:
     """An entry of a scenario file's ``acl:`` section for a model rule (named ports / protocols)."""
+    _check_rule(r, none_ports)
     names = port_names()
     d: Dict[str, Any] = {"action": r["action"].upper()}
     if r["proto"] != "any":
@@ -168,6 +194,10 @@ def config_entry(r: Dict[str, Any], emb: Embedding) -> Dict[str, Any]:
         d["src_port"] = names[r["sport"]]
     if r["dport"] != ANYN:
         d["dst_port"] = names[r["dport"]]
+    if "sport" in none_ports:
+        d["src_port"] = "NONE"
+    if "dport" in none_ports:
+        d["dst_port"] = "NONE"
     return d
 
 
@@ -187,6 +217,11 @@ def make_frame(p: Dict[str, Any], emb: Embedding):
     return Frame(ethernet=eth, ip=ip, icmp=ICMPPacket())
 
 
+def _port_back(p) -> int:
+    # None and NONE(0) both mean "no port specified" (PORT_LOOKUP["NONE"]; ACLRule.describe_state)
+    return ANYN if (p is None or int(p) == 0) else int(p)
+
+
 def project_rule(r, emb: Embedding) -> Dict[str, Any]:
     """Real ACLRule object -> model rule (read from the object's fields)."""
     return {
@@ -196,8 +231,8 @@ def project_rule(r, emb: Embedding) -> Dict[str, Any]:
         "smask": ANYN if r.src_wildcard_mask is None else emb.inv_wc(r.src_wildcard_mask),
         "dst": ANYN if r.dst_ip_address is None else emb.inv_ip(r.dst_ip_address),
         "dmask": ANYN if r.dst_wildcard_mask is None else emb.inv_wc(r.dst_wildcard_mask),
-        "sport": ANYN if r.src_port is None else int(r.src_port),
-        "dport": ANYN if r.dst_port is None else int(r.dst_port),
+        "sport": _port_back(r.src_port),
+        "dport": _port_back(r.dst_port),
     }
 
 
@@ -246,8 +281,8 @@ class ApiDoor:
             implicit_action=ACLAction.PERMIT if implicit == "permit" else ACLAction.DENY,
         )
 
-    def add(self, pos: int, r: Dict[str, Any]) -> bool:
-        return bool(self.acl.add_rule(position=pos, **api_kwargs(r, self.emb, self.style)))
+    def add(self, pos: int, r: Dict[str, Any], none_ports=()) -> bool:
+        return bool(self.acl.add_rule(position=pos, **api_kwargs(r, self.emb, self.style, none_ports)))
 
     def remove(self, pos: int) -> bool:
         return bool(self.acl.remove_rule(pos))
@@ -277,10 +312,10 @@ class RequestDoor:
         resp = self.game.simulation.apply_request(copy.deepcopy(req))
         return resp.status == "success"
 
-    def add(self, pos: int, r: Dict[str, Any]) -> bool:
+    def add(self, pos: int, r: Dict[str, Any], none_ports=()) -> bool:
         from primaite.game.agent.actions.acl import FirewallACLAddRuleAction, RouterACLAddRuleAction
 
-        opts = action_options(r, self.emb, self.style)
+        opts = action_options(r, self.emb, self.style, none_ports)
         if self.which == "router":
             cfg = RouterACLAddRuleAction.ConfigSchema(type="router-acl-add-rule", target_router="r", position=pos, **opts)
             return self._apply(RouterACLAddRuleAction.form_request(cfg))
@@ -306,7 +341,7 @@ class RequestDoor:
 def scenario(which: str, entries: Optional[List[Dict[str, Any]]], emb: Embedding) -> Dict[str, Any]:
     """A scenario (config dict) holding router r (a -- r -- b) or a firewall fw, whose list `which` gets the
     ``acl`` entries [{pos, r}] (None: no acl entries at all - the base the loaded list is compared with)."""
-    section = {int(e["pos"]): config_entry(e["r"], emb) for e in (entries or [])}
+    section = {int(e["pos"]): config_entry(e["r"], emb, e.get("none_ports", ())) for e in (entries or [])}
     if which == "router":
         return scenarios.routed(acl=section)
     _, zone, direction = which.split(":")
@@ -342,7 +377,8 @@ def siblings(game, which: str) -> List[Tuple[str, Any]]:
 
 def run_stimulus(stim: Dict[str, Any]) -> List[Dict[str, Any]]:
     """stim = {door: api|request|config, list: standalone|router|fw:<zone>:<dir>, n, implicit (api only),
-    emb, style (int), load: [{pos, r}] (config only), ops: [{op: add|remove|check, pos, rule, pkt}],
+    emb, style (int), load: [{pos, r, none_ports}] (config only),
+    ops: [{op: add|remove|check, pos, rule, none_ports, pkt}]  (none_ports: unspecified ports spelt NONE(0)),
     siblings: bool (default true; false = do not record the firewall's other lists)}
 
     Returns the trace of the addressed list followed by one trace per sibling list (a second stand-alone
@@ -384,7 +420,7 @@ def run_stimulus(stim: Dict[str, Any]) -> List[Dict[str, Any]]:
         base_sib_cfgs = [list_cfg(lst, emb) for _, lst in siblings(base, which)]
         es = [{"pos": int(e["pos"]), "r": e["r"]} for e in stim["load"]]
         try:
-            game = scenarios.build(scenario(which, es, emb))
+            game = scenarios.build(scenario(which, stim["load"], emb))
         except Exception as ex:  # noqa - repository code raised while loading: an event no action allows
             meta["raised"] = f"load: {type(ex).__name__}: {ex}"[:300]
             e = event("Raised", get_list(base, which), emb, es=es)
@@ -399,7 +435,7 @@ def run_stimulus(stim: Dict[str, Any]) -> List[Dict[str, Any]]:
         kind = op["op"]
         try:
             if kind == "add":
-                ok = door.add(op["pos"], op["rule"])
+                ok = door.add(op["pos"], op["rule"], op.get("none_ports", ()))
                 events.append(event("Add" if ok else "Refused", acl, emb, pos=op["pos"], rule=op["rule"]))
             elif kind == "remove":
                 ok = door.remove(op["pos"])
